@@ -39,10 +39,12 @@ ABS = [inst("dlt_iter_abs", "c01_abs_" + n, T, d + "; 9-byte stream with model m
 
 PROP = {
     "manifest": dict(
-        text="Induction steps of the framing statement, each decided by the solver on the real parsers and the real DltMessageIterator::next: L1 accept (2 framings x 16 header-flag shapes x payload 0..5 B x tail 0..8 B incl. "
-             "'next marker follows': the exact message with every field intact), L2 reject (any marker-free start, buffers <= 40 B: never Ok, right error kind), L1b/B2 look-ahead locality, L4 length arithmetic on arbitrary "
-             "buffers, L3 iterator plumbing as ONE next() from an ARBITRARY iterator state (index/bytes_processed/bytes_skipped symbolic, each framing-flag state): garbage skipped byte-exactly, message numbered with the current index, "
-             "counters exact, short tail left unconsumed. The composition to arbitrarily long streams is the induction over stream position (paper argument in DESIGN §2 C01). Bounds: payload <= 5 B, tail <= 8 B, garbage <= 3 B per step.",
+        text="Induction steps of the framing statement, each decided by the solver on the real parsers and the real DltMessageIterator::next: L1 accept (2 framings x 16 header-flag shapes x payload 0..5 B x tail 0..8 B, incl. "
+             "'next marker follows directly' and 'next marker after 1..4 garbage bytes': exactly this message with every field intact; quick: 6 shapes + 1 drawn by VERIF_SEED, thorough: all 186), L1c field extraction for all 256 header-type "
+             "bytes, L2 reject (any start without the marker, buffers <= 40 B: never Ok, right error kind), L1b/B2 look-ahead locality, L4 length arithmetic on arbitrary buffers, L3 iterator plumbing as ONE real next() from an ARBITRARY "
+             "iterator state (index/bytes_processed/bytes_skipped symbolic, each framing-flag state; garbage <= 3 B): message numbered with the current index, counters exact, mode set, short tail left unconsumed; "
+             "L3' (thorough) the real next() over WHOLE 9-byte streams with symbolic message positions against parser contract models. The composition to arbitrarily long streams is the induction over stream position "
+             "(paper argument in DESIGN 2/C01). Bounds: payload <= 5 B, tail <= 8 B, garbage <= 4 B per step.",
         note=TB + "payload bytes beyond 5 are one Vec::from copy (outside); reading through LowMarkBufReader is C04; logging off (log = None).",
         technique="bounded model checking of the real code (Kani/CBMC): shape-enumerated accept/reject lemmas + inductive iterator step"),
     "jobs": {"quick": 7, "thorough": 5},
